@@ -68,6 +68,8 @@ type c13Run struct {
 	tree *ObjectTree
 	ref  *c13Ref
 	step int
+
+	nodigest bool
 }
 
 func (c *c13Run) mon(sig, format string, args ...interface{}) {
@@ -113,6 +115,14 @@ func (c *c13Run) dump() []uint64 {
 		d = append(d, c13Fields(o)...)
 	}
 	return d
+}
+
+// digest of the whole pool as a list of observation numbers (empty while digests are switched off)
+func (c *c13Run) dg() []uint64 {
+	if c.nodigest {
+		return nil
+	}
+	return []uint64{c.digest()}
 }
 
 func (c *c13Run) digest() uint64 {
@@ -431,7 +441,7 @@ func (c *c13Run) run(nums []uint64) []uint64 {
 				return append(obs, 1)
 			}
 			pos := c.posOf(o)
-			obs = append(obs, 0, pos, c.digest())
+			obs = append(append(obs, 0, pos), c.dg()...)
 			legal := uint16(opc) != pOpIntFreedObject
 			if !legal {
 				ref.tainted = true
@@ -489,7 +499,7 @@ func (c *c13Run) run(nums []uint64) []uint64 {
 				}
 				return append(obs, 1)
 			}
-			obs = append(obs, 0, c.digest())
+			obs = append(append(obs, 0), c.dg()...)
 			if !legal {
 				ref.tainted = true
 				continue
@@ -514,7 +524,7 @@ func (c *c13Run) run(nums []uint64) []uint64 {
 				}
 				return append(obs, 1)
 			}
-			obs = append(obs, 0, c.digest())
+			obs = append(append(obs, 0), c.dg()...)
 			if !legal {
 				ref.tainted = true
 				continue
@@ -533,7 +543,7 @@ func (c *c13Run) run(nums []uint64) []uint64 {
 				}
 				return append(obs, 1)
 			}
-			obs = append(obs, 0, c.digest())
+			obs = append(append(obs, 0), c.dg()...)
 			if !legal {
 				ref.tainted = true
 				continue
@@ -558,7 +568,7 @@ func (c *c13Run) run(nums []uint64) []uint64 {
 			if p, _ := c.guard(func() { tree.CreateDefaultScopes(uint8(th)) }); p {
 				return append(obs, 1)
 			}
-			obs = append(obs, 0, c.digest())
+			obs = append(append(obs, 0), c.dg()...)
 			if !legal {
 				ref.tainted = true // with freed slots the reference cannot know which slots are used
 				continue
@@ -661,6 +671,9 @@ func (c *c13Run) run(nums []uint64) []uint64 {
 					c.mon("c13:argat", "ArgAt(%d, %d) = %#x, reference child is %#x", scope, arg2, res, want)
 				}
 			}
+
+		case 14: // digests off / on
+			c.nodigest = cur.Next() == 0
 
 		case 11: // ObjectAt
 			i := cur.Next()
